@@ -240,12 +240,18 @@ func prehashMsiDirent(item *comdoc.DirEnt, d io.Writer) {
 func sortMsiFiles(files []*comdoc.DirEnt) {
 	sort.Slice(files, func(i, j int) bool {
 		a, b := files[i], files[j]
-		n := a.NameLength
-		if b.NameLength < n {
-			n = b.NameLength
+		// NameLength is in bytes. Names that are the same up to the length
+		// of the shorter one are told apart by their length.
+		n := int(a.NameLength)
+		if int(b.NameLength) < n {
+			n = int(b.NameLength)
+		}
+		n /= 2
+		if n > len(a.NameRunes) {
+			n = len(a.NameRunes)
 		}
 		// do a comparison of the utf16 in its original LE form
-		for k := uint16(0); k < n; k++ {
+		for k := 0; k < n; k++ {
 			x, y := a.NameRunes[k], b.NameRunes[k]
 			x1, y1 := x&0xff, y&0xff
 			if x1 != y1 {
